@@ -14,6 +14,9 @@ import (
 	"github.com/prometheus/prometheus/model/labels"
 	"github.com/prometheus/prometheus/promql"
 	"github.com/prometheus/prometheus/promql/parser"
+
+	"github.com/thanos-community/promql-engine/execution"
+	"github.com/thanos-community/promql-engine/logicalplan"
 )
 
 // mergeDuplicateSeries merges series with equal label sets when their points
@@ -95,22 +98,28 @@ func binopSignatureCollision(c *Case) bool {
 		}
 		// The engine joins at the level of series (everything the storage
 		// returns for the selectors), the reference at the level of samples: a
-		// series without a sample in the window still takes part in the engine's
-		// join table. Evaluate each side with the configured lookback and with a
-		// lookback that covers all the data.
-		for i := 0; i < 4; i++ {
+		// series without a sample at the evaluation time still takes part in the
+		// engine's join table.
+		if len(b.VectorMatching.Include) > 0 {
+			// what differs for a collision no sample shows is which one-side
+			// series the included labels are copied from: look at the series
+			// lists the engine's own operators enumerate for the two sides
+			for _, side := range []parser.Expr{b.LHS, b.RHS} {
+				seen := map[string]string{}
+				for _, l := range engineSeries(c, side.String()) {
+					sg := sigOf(l, b.VectorMatching)
+					if prev, dup := seen[sg]; dup && prev != l.String() {
+						found = true
+					}
+					seen[sg] = l.String()
+				}
+			}
+		}
+		for i := 0; i < 2; i++ {
 			side := []parser.Expr{b.LHS, b.RHS}[i%2]
 			var qo *promql.QueryOpts
 			if cfg.QueryLookback != 0 {
 				qo = &promql.QueryOpts{LookbackDelta: cfg.QueryLookback}
-			}
-			if i >= 2 {
-				// what differs for a collision no sample shows is which one-side
-				// series the included labels are copied from
-				if len(b.VectorMatching.Include) == 0 {
-					continue
-				}
-				qo = &promql.QueryOpts{LookbackDelta: 100 * time.Hour}
 			}
 			w := c.Window
 			step := time.Duration(w.Step) * time.Millisecond
@@ -149,6 +158,46 @@ func binopSignatureCollision(c *Case) bool {
 	return found
 }
 
+// engineSeries is the series list that the engine's operator tree for the
+// expression enumerates (Series()), with no logical optimizers, over the case's
+// data and window; nil if the expression has no native operator tree.
+func engineSeries(c *Case, qs string) (out []labels.Labels) {
+	defer func() {
+		if recover() != nil {
+			out = nil
+		}
+	}()
+	expr, err := parser.ParseExpr(qs)
+	if err != nil {
+		return nil
+	}
+	cfg := c.Cfg()
+	w := c.Window
+	start, end, step := time.UnixMilli(w.Start), time.UnixMilli(w.End), time.Duration(w.Step)*time.Millisecond
+	if w.Instant() {
+		end, step = start, 0
+	}
+	lb := cfg.Lookback
+	if cfg.QueryLookback != 0 {
+		lb = cfg.QueryLookback
+	}
+	if lb == 0 {
+		lb = 5 * time.Minute
+	}
+	lplan := logicalplan.New(expr, start, end).Optimize(logicalplan.NoOptimizers)
+	op, err := execution.New(lplan.Expr(), NewStore(c.Data), start, end, step, lb)
+	if err != nil {
+		return nil
+	}
+	ctx, cancel := context.WithTimeout(context.Background(), 20*time.Second)
+	defer cancel()
+	series, err := op.Series(ctx)
+	if err != nil {
+		return nil
+	}
+	return series
+}
+
 // classifyRefFailure returns the tags of the known-finding conditions that hold
 // for a case on which the engine and the reference engine differ.
 func classifyRefFailure(c *Case, impl, ref Canon) []string {
@@ -174,12 +223,102 @@ func classifyRefFailure(c *Case, impl, ref Canon) []string {
 	if tieSensitive(c.Query) && topkTie(c) {
 		tags = append(tags, "topk-tie")
 	}
+	if varianceConditioning(c, impl, ref) {
+		tags = append(tags, "variance-conditioning")
+	}
 	// only for explicitly overflowing magnitudes (a literal of the order 1e300 in the query)
 	if (strings.Contains(c.Query, "stddev") || strings.Contains(c.Query, "stdvar") || strings.Contains(c.Query, "avg")) &&
 		(strings.Contains(c.Query, "1e30") || overflowingOperand(c)) && (hasNonFinite(impl) || hasNonFinite(ref)) {
 		tags = append(tags, "overflow-in-mean-or-variance")
 	}
 	return tags
+}
+
+// varianceConditioning: the query is a stddev/stdvar at the top level and the
+// two results have the same series and timestamps and differ only by what the
+// conditioning of a variance explains: |var_impl - var_ref| <= 1e-12 * n * M^2
+// (n operand series, M the largest operand magnitude). A relative tolerance on
+// the result is meaningless for a variance that is tiny compared with the
+// square of the mean (values 1 +- 1e-7): the engine's and the reference's
+// summation orders round differently there and neither is exact.
+func varianceConditioning(c *Case, impl, ref Canon) bool {
+	expr, err := parser.ParseExpr(c.Query)
+	if err != nil {
+		return false
+	}
+	for {
+		p, ok := expr.(*parser.ParenExpr)
+		if !ok {
+			break
+		}
+		expr = p.Expr
+	}
+	a, ok := expr.(*parser.AggregateExpr)
+	if !ok || (a.Op != parser.STDDEV && a.Op != parser.STDVAR) {
+		return false
+	}
+	if impl.Kind == "error" || ref.Kind == "error" || impl.Kind != ref.Kind || len(impl.Series) != len(ref.Series) {
+		return false
+	}
+	st := NewStore(c.Data)
+	cfg := c.Cfg()
+	eng := promql.NewEngine(promOpts(cfg))
+	var qo *promql.QueryOpts
+	if cfg.QueryLookback != 0 {
+		qo = &promql.QueryOpts{LookbackDelta: cfg.QueryLookback}
+	}
+	w := c.Window
+	step, end := time.Duration(w.Step)*time.Millisecond, w.End
+	if w.Instant() {
+		step, end = time.Second, w.Start
+	}
+	q, err := eng.NewRangeQuery(st, qo, a.Expr.String(), time.UnixMilli(w.Start), time.UnixMilli(end), step)
+	if err != nil {
+		return false
+	}
+	defer q.Close()
+	r := q.Exec(context.Background())
+	if r.Err != nil {
+		return false
+	}
+	m, ok := r.Value.(promql.Matrix)
+	if !ok {
+		return false
+	}
+	maxAbs := 0.0
+	for _, s := range m {
+		for _, p := range s.Points {
+			if !math.IsInf(p.V, 0) && !math.IsNaN(p.V) && math.Abs(p.V) > maxAbs {
+				maxAbs = math.Abs(p.V)
+			}
+		}
+	}
+	tol := 1e-12 * float64(len(m)) * maxAbs * maxAbs
+	sq := func(x float64) float64 {
+		if a.Op == parser.STDDEV {
+			return x * x
+		}
+		return x
+	}
+	for i := range impl.Series {
+		x, y := impl.Series[i], ref.Series[i]
+		if x.Key != y.Key || len(x.Points) != len(y.Points) {
+			return false
+		}
+		for j := range x.Points {
+			if x.Points[j].T != y.Points[j].T {
+				return false
+			}
+			u, v := x.Points[j].V, y.Points[j].V
+			if math.IsNaN(u) && math.IsNaN(v) || u == v {
+				continue
+			}
+			if math.IsNaN(u) || math.IsNaN(v) || math.IsInf(u, 0) || math.IsInf(v, 0) || math.Abs(sq(u)-sq(v)) > tol {
+				return false
+			}
+		}
+	}
+	return true
 }
 
 // overflowingOperand reports whether some avg/stddev/stdvar of the query has,
